@@ -103,6 +103,17 @@ class Prop:
                     rng.shuffle(lines)
                     parts.append([('m%d' % seq_no, l, n) for l in lines])
             cases.append(gen.random_interleaving(rng, parts) if rng.random() < 0.6 else [x for p in parts for x in p])
+        # very many incomplete messages in flight (every one in its own slot) when a wrapper and then its message
+        # arrive: the wrapper waits for the next delivery, however crowded the reassembly buffer is
+        for count in ((1023, 1024, 1025, 2048) if ctx.tier == 'quick' else (1, 255, 256, 1023, 1024, 1025, 2047, 2048, 2049, 3072)):
+            case = []
+            for j in range(count):
+                case.append(('d%d' % j, gen.sentence('AIVDM', 2, 1, str(j), 'AB'[j % 2], '55P5TL01VIaAL@7WKO@mBplU@<PDhh', 0), 2))
+            w = self.wrapper(rng, True, None)
+            case.append(('w',) + w)
+            case.append(('d%d' % count, gen.sentence('AIVDM', 2, 1, str(count), 'A', '55P5TL01VIaAL@7WKO@mBplU@<PDhh', 0), 2))
+            case.append(('s', gen.render(gen.payload_bits(rng, 'MessageType1'), chan='B')[0], None))
+            cases.insert(0, case)
         for fe in ('iter', 'bytestream', 'queue', 'iter+tbq', 'queue+tbq', 'bytestream+tbq', 'socket'):
             if fe == 'socket':
                 # the same lines through the socket front-end, cut into random pieces (a line may arrive in
